@@ -446,7 +446,7 @@ impl FiberIoUtils {
                 async move { processor(path).await }
             })
             // `buffered`, not `buffer_unordered`: result i must belong to paths[i]
-            .buffered(max_concurrent)
+            .buffered(max_concurrent.max(1)) // a limit of 0 would never poll anything
             .collect::<Vec<_>>()
             .await;
 
@@ -474,7 +474,8 @@ impl FiberIoUtils {
         let items: Vec<T> = items.into_iter().collect();
         let mut results = Vec::new();
 
-        for chunk in items.chunks(batch_size) {
+        // chunks(0) panics; a batch size of 0 is treated as 1
+        for chunk in items.chunks(batch_size.max(1)) {
             let chunk_vec: Vec<T> = chunk.to_vec();
             let chunk_results = processor(chunk_vec).await?;
             results.extend(chunk_results);
